@@ -23,7 +23,7 @@ TOP = ["class Box:", "    def __init__(self, v):", "        self.v = v", "      
        "def plain_arms(o, w):", "    if choice():", "        o.f = w", "    else:", "        o.f = 6", "    return 0", ""]
 
 INT_ONLY = {"arith_add", "arith_sub_neg", "arith_mul", "arith_zero", "add_call", "two_sites_add", "sub3",
-            "callee_alias_two_arms", "callee_alias_two_exits", "callee_param_two_arms", "branch_alias_field", "two_sites_wrap", "two_sites_wrap2", "two_sites_fill"}
+            "callee_alias_two_arms", "callee_alias_two_exits", "callee_param_two_arms", "branch_alias_field", "two_sites_wrap", "two_sites_wrap2", "two_sites_fill", "maybe_receiver"}
 STR_ONLY = {"concat", "concat_left", "concat_digits", "repeat"}
 
 
